@@ -6,13 +6,18 @@ package fake
 import (
 	"bytes"
 	"encoding/json"
+	"errors"
 	"fmt"
 	"io"
 	"mime"
 	"mime/multipart"
+	"net"
 	"net/http"
+	"os"
 	"strings"
 	"sync"
+	"sync/atomic"
+	"syscall"
 
 	"github.com/vektah/gqlparser/v2/ast"
 
@@ -254,8 +259,66 @@ func jsonResponse(status int, body []byte) *http.Response {
 	return &http.Response{
 		StatusCode: status, Status: fmt.Sprintf("%d", status), Proto: "HTTP/1.1", ProtoMajor: 1, ProtoMinor: 1,
 		Header: http.Header{"Content-Type": []string{"application/json"}},
-		Body:   io.NopCloser(bytes.NewReader(body)), ContentLength: int64(len(body)),
+		Body:   newTrackedBody(body), ContentLength: int64(len(body)),
 	}
+}
+
+// trackedBody is a response body that knows whether its reader released it: a real transport gives the
+// connection back only when the body was read to its end or closed.
+type trackedBody struct {
+	r        *bytes.Reader
+	released int32
+}
+
+var heldBodies int64
+
+func newTrackedBody(b []byte) *trackedBody {
+	atomic.AddInt64(&heldBodies, 1)
+	return &trackedBody{r: bytes.NewReader(b)}
+}
+
+func (t *trackedBody) release() {
+	if atomic.CompareAndSwapInt32(&t.released, 0, 1) {
+		atomic.AddInt64(&heldBodies, -1)
+	}
+}
+
+func (t *trackedBody) Read(p []byte) (int, error) {
+	n, err := t.r.Read(p)
+	if err == io.EOF {
+		t.release()
+	}
+	return n, err
+}
+
+func (t *trackedBody) Close() error { t.release(); return nil }
+
+// HeldBodies is the number of response bodies handed out (by all Nets of the process) and not yet released.
+func HeldBodies() int64 { return atomic.LoadInt64(&heldBodies) }
+
+// TransportError returns a transport-level failure as a real http.Client would report it; which one is a
+// stable function of the key (the case decides, not the schedule).
+func TransportError(key string) error {
+	h := 0
+	for _, c := range key {
+		h = h*31 + int(c)
+	}
+	if h < 0 {
+		h = -h
+	}
+	switch h % 6 {
+	case 0:
+		return io.EOF
+	case 1:
+		return io.ErrUnexpectedEOF
+	case 2:
+		return &net.OpError{Op: "read", Net: "tcp", Err: os.NewSyscallError("read", syscall.ECONNRESET)}
+	case 3:
+		return &net.OpError{Op: "write", Net: "tcp", Err: os.NewSyscallError("write", syscall.EPIPE)}
+	case 4:
+		return &net.OpError{Op: "dial", Net: "tcp", Err: os.NewSyscallError("connect", syscall.ECONNREFUSED)}
+	}
+	return errors.New("fake: connection refused")
 }
 
 // parseMultipart is the harness's own reading of the GraphQL multipart request spec (single operation).
